@@ -21,7 +21,7 @@ MEMBERS = ['M', 'N', 'MM']
 PATHS = ['/', '/a', '/a/b', '/a/bc', '/a/b/c', '/ab', '/a/b/c/d']
 NAMESPACES = ['/', '/a', '/a/b', '/a/b/c', '/ab', '/x']
 DESTS = [':1.1', ':1.2', 'org.verif.D']
-ARGS = ['x', 'y', '', 'xy', "it's", 'a,b', 'k=v', '42', '7', 'True']      # (some read like the text of a number or a boolean)
+ARGS = ['x', 'y', '', 'xy', "it's", 'a,b', 'k=v', '42', '7', 'True', 'C:\\temp\\x', "\\'q\\"]      # (some read like the text of a number or a boolean)
 ARG_PATHS = ['/', '/a/', '/a/b', '/a/b/', '/a/bc', '/a/b/c', '/a/b/c/']
 TYPES = ['signal', 'method_call', 'method_return', 'error']
 SENDER = ':1.5'
